@@ -26,7 +26,11 @@ def run_seed(d: Path, props):
         res = {}
         for pid in props:
             env = dict(os.environ, FICKLING_REPO=str(root), SA_EVIDENCE_DIR=str(tmp / "ev"), SA_JOBS=os.environ.get("SA_JOBS", "2"), SA_CACHE_DIR=os.environ.get("SA_CACHE_DIR", "/tmp/sa-cache"))
-            q = subprocess.run([PY, "-m", "sa.check", pid], cwd=VERIF, env=env, capture_output=True, text=True, timeout=600)
+            try:
+                q = subprocess.run([PY, "-m", "sa.check", pid], cwd=VERIF, env=env, capture_output=True, text=True, timeout=900)
+            except subprocess.TimeoutExpired:
+                res[pid] = (2, [], [f"ANALYSIS-ERROR property={pid}: the check did not finish within the batch runner's time limit"])
+                continue
             keys = [l.split("key=")[1].split(" at ")[0] for l in q.stdout.splitlines() if "finding: key=" in l]
             err = [l for l in q.stdout.splitlines() if l.startswith("ANALYSIS-ERROR")]
             res[pid] = (q.returncode, keys, err)
@@ -60,6 +64,8 @@ def main():
             out[name] = {"status": status, "caught_by": caught, "undecided": undec}
     if "--dir" not in sys.argv:
         json.dump(out, open(VERIF / "seeded" / "RESULTS.json", "w"), indent=1, sort_keys=True)
+    elif "--save" in sys.argv:
+        json.dump(out, open(sys.argv[sys.argv.index("--save") + 1], "w"), indent=1, sort_keys=True)
 
 
 if __name__ == "__main__":
